@@ -60,12 +60,15 @@ extern DataCommMode enforcedDataMode;
 template <typename DataType>
 DataCommMode get_data_mode(size_t num_selected, size_t num_total) {
   DataCommMode data_mode = noData;
-  if (enforcedDataMode != noData) {
+  if (num_selected == 0 && enforcedDataMode != onlyData) {
+    // nothing to send, also under an enforced metadata mode: a message in
+    // every round keeps a bulk-asynchronous execution from ever becoming
+    // quiescent (the dense mode does not count what was selected)
+    data_mode = noData;
+  } else if (enforcedDataMode != noData) {
     data_mode = enforcedDataMode;
   } else { // no enforced mode, so find an appropriate mode
-    if (num_selected == 0) {
-      data_mode = noData;
-    } else if (num_selected == num_total) {
+    if (num_selected == num_total) {
       data_mode = onlyData;
     } else {
       size_t bitset_alloc_size =
